@@ -332,21 +332,66 @@ func ruleSIBSET(c *Ctx) []Obligation {
 				calls map[string]bool
 			}
 			var arms []arm
+			// the variable returned after the switch, and the setters applied to it there
+			var tailObj types.Object
+			tailCalls := map[string]bool{}
+			ast.Inspect(fd.Body, func(m ast.Node) bool {
+				if r, ok := m.(*ast.ReturnStmt); ok && r.Pos() > sw.End() && len(r.Results) >= 1 && tailObj == nil {
+					if id, ok := unparen(r.Results[0]).(*ast.Ident); ok && id.Name != "nil" {
+						tailObj = info.ObjectOf(id)
+					}
+				}
+				return true
+			})
+			if tailObj != nil {
+				ast.Inspect(fd.Body, func(m ast.Node) bool {
+					if call, ok := m.(*ast.CallExpr); ok && call.Pos() > sw.End() {
+						if se, ok := unparen(call.Fun).(*ast.SelectorExpr); ok && setters[se.Sel.Name] {
+							if x, ok := unparen(se.X).(*ast.Ident); ok && info.ObjectOf(x) == tailObj {
+								tailCalls[se.Sel.Name] = true
+							}
+						}
+					}
+					return true
+				})
+			}
 			for _, cc := range sw.Body.List {
 				cl := cc.(*ast.CaseClause)
 				if cl.List == nil || len(cl.Body) == 0 {
 					continue
 				}
-				r, ok := cl.Body[len(cl.Body)-1].(*ast.ReturnStmt)
-				if !ok || len(r.Results) < 1 {
+				var obj types.Object
+				if r, ok := cl.Body[len(cl.Body)-1].(*ast.ReturnStmt); ok {
+					if len(r.Results) < 1 {
+						continue
+					}
+					id, ok := unparen(r.Results[0]).(*ast.Ident)
+					if !ok || id.Name == "nil" {
+						continue
+					}
+					obj = info.ObjectOf(id)
+				} else if tailObj != nil {
+					// single exit: the arm assigns the variable that the statements after the switch
+					// finish and return
+					for _, st := range cl.Body {
+						if as, ok := st.(*ast.AssignStmt); ok {
+							for _, l := range as.Lhs {
+								if id, ok := l.(*ast.Ident); ok && info.ObjectOf(id) == tailObj {
+									obj = tailObj
+								}
+							}
+						}
+					}
+				}
+				if obj == nil {
 					continue
 				}
-				id, ok := unparen(r.Results[0]).(*ast.Ident)
-				if !ok || id.Name == "nil" {
-					continue
-				}
-				obj := info.ObjectOf(id)
 				a := arm{pos: cl.Pos(), calls: map[string]bool{}}
+				if obj == tailObj {
+					for k := range tailCalls {
+						a.calls[k] = true
+					}
+				}
 				var ls []string
 				for _, e := range cl.List {
 					ls = append(ls, exprString(e))
@@ -528,32 +573,77 @@ func init() {
 func ruleNUMPARSE(c *Ctx) []Obligation {
 	pa := c.pkg(pkgASM)
 	info := pa.TypesInfo
-	// the numbering function: (ir.GlobalIdent, *integer) → ir.GlobalIdent
-	var numbering *types.Func
+	// the numbering step: a function of package asm that stores a counter-derived ID into an
+	// ir.GlobalIdent (x.SetID(*ctr) … *ctr++), whatever its signature — a pure function
+	// (ident, *ctr) → ident, or the indexing helper itself when the step is inlined into it
+	numberingOf := map[*types.Func]types.Object{} // → the variable that is numbered there
+	numberingAt := map[*types.Func]token.Pos{}
+	var numNames []string
 	c.eachFunc(pkgASM, func(p *packages.Package, fd *ast.FuncDecl, fn *types.Func) {
-		sig := fn.Type().(*types.Signature)
-		if sig.Params().Len() != 2 || sig.Results().Len() != 1 || !isNamed(sig.Results().At(0).Type(), pkgIR, "GlobalIdent") {
-			return
-		}
-		if !isNamed(sig.Params().At(0).Type(), pkgIR, "GlobalIdent") {
-			return
-		}
-		if pt, ok := sig.Params().At(1).Type().(*types.Pointer); ok {
-			if b, ok := pt.Elem().Underlying().(*types.Basic); ok && b.Info()&types.IsInteger != 0 {
-				numbering = fn
+		counters := map[types.Object]bool{}
+		ast.Inspect(fd.Body, func(n ast.Node) bool {
+			if s, ok := n.(*ast.IncDecStmt); ok && s.Tok == token.INC {
+				e := unparen(s.X)
+				if st, ok := e.(*ast.StarExpr); ok {
+					e = unparen(st.X)
+				}
+				if id, ok := e.(*ast.Ident); ok {
+					counters[info.ObjectOf(id)] = true
+				}
 			}
+			return true
+		})
+		if len(counters) == 0 {
+			return
 		}
+		ast.Inspect(fd.Body, func(n ast.Node) bool {
+			call, ok := n.(*ast.CallExpr)
+			if !ok {
+				return true
+			}
+			objE, idE, ok := c.idSetCall(info, call)
+			if !ok {
+				return true
+			}
+			t := info.TypeOf(objE)
+			if pt, ok := t.(*types.Pointer); ok {
+				t = pt.Elem()
+			}
+			if !isNamed(t, pkgIR, "GlobalIdent") {
+				return true
+			}
+			derived := false
+			ast.Inspect(idE, func(m ast.Node) bool {
+				if id, ok := m.(*ast.Ident); ok && counters[info.ObjectOf(id)] {
+					derived = true
+				}
+				return true
+			})
+			if !derived {
+				return true
+			}
+			if id, ok := unparen(objE).(*ast.Ident); ok {
+				if _, dup := numberingOf[fn]; !dup {
+					numberingOf[fn] = info.ObjectOf(id)
+					numberingAt[fn] = call.Pos()
+					numNames = append(numNames, fn.Name())
+				}
+			}
+			return true
+		})
 	})
-	if numbering == nil {
-		return []Obligation{{Key: "parser-side numbering function", Verdict: UNDECIDED, Detail: "no function (ir.GlobalIdent, *int) ir.GlobalIdent found in package asm"}}
+	if len(numberingOf) == 0 {
+		return []Obligation{{Key: "parser-side numbering function", Verdict: UNDECIDED, Detail: "no function of package asm stores a counter-derived ID into an ir.GlobalIdent"}}
 	}
+	sort.Strings(numNames)
+	numName := strings.Join(numNames, " / ")
 	var obs []Obligation
 	// origin of a key expression: true when every definition reaching it is a call of the numbering function
 	var numbered func(fd *ast.FuncDecl, fn *types.Func, e ast.Expr, depth int) (bool, string)
 	numbered = func(fd *ast.FuncDecl, fn *types.Func, e ast.Expr, depth int) (bool, string) {
 		e = unparen(e)
 		if call, ok := e.(*ast.CallExpr); ok {
-			if calleeOf(info, call) == numbering {
+			if _, isNum := numberingOf[calleeOf(info, call)]; isNum {
 				return true, ""
 			}
 			return false, exprString(e)
@@ -563,6 +653,10 @@ func ruleNUMPARSE(c *Ctx) []Obligation {
 			return false, exprString(e)
 		}
 		obj := info.ObjectOf(id)
+		// the variable this very function numbers (the step is inlined here), used after the step
+		if numberingOf[fn] == obj && numberingAt[fn] < e.Pos() {
+			return true, ""
+		}
 		// a parameter: every call site
 		sig := fn.Type().(*types.Signature)
 		for i := 0; i < sig.Params().Len(); i++ {
@@ -607,17 +701,21 @@ func ruleNUMPARSE(c *Ctx) []Obligation {
 	c.eachFunc(pkgASM, func(p *packages.Package, fd *ast.FuncDecl, fn *types.Func) {
 		counters := map[types.Object]token.Pos{}
 		ast.Inspect(fd.Body, func(nd ast.Node) bool {
-			if call, ok := nd.(*ast.CallExpr); ok && calleeOf(info, call) == numbering && len(call.Args) == 2 {
-				if ue, ok := unparen(call.Args[1]).(*ast.UnaryExpr); ok && ue.Op == token.AND {
-					if id, ok := unparen(ue.X).(*ast.Ident); ok {
-						counters[info.ObjectOf(id)] = call.Pos()
+			if call, ok := nd.(*ast.CallExpr); ok {
+				if _, isNum := numberingOf[calleeOf(info, call)]; isNum {
+					for _, a := range call.Args {
+						if ue, ok := unparen(a).(*ast.UnaryExpr); ok && ue.Op == token.AND {
+							if id, ok := unparen(ue.X).(*ast.Ident); ok {
+								counters[info.ObjectOf(id)] = call.Pos()
+							}
+						}
 					}
 				}
 			}
 			return true
 		})
 		for obj := range counters {
-			o := Obligation{Key: fmt.Sprintf("%s: the counter %s is advanced by %s only", funcKey(fn), obj.Name(), numbering.Name()), Pos: c.pos(obj.Pos()), Verdict: OK, Detail: "declared once, never assigned elsewhere"}
+			o := Obligation{Key: fmt.Sprintf("%s: the counter %s is advanced by %s only", funcKey(fn), obj.Name(), numName), Pos: c.pos(obj.Pos()), Verdict: OK, Detail: "declared once, never assigned elsewhere"}
 			ast.Inspect(fd.Body, func(nd ast.Node) bool {
 				switch x := nd.(type) {
 				case *ast.AssignStmt:
@@ -650,7 +748,7 @@ func ruleNUMPARSE(c *Ctx) []Obligation {
 					continue
 				}
 				n++
-				o := Obligation{Key: fmt.Sprintf("%s indexes a global entity #%d under a numbered identifier", funcKey(fn), n), Pos: c.pos(as.Pos()), Verdict: OK, Detail: "key comes from " + numbering.Name()}
+				o := Obligation{Key: fmt.Sprintf("%s indexes a global entity #%d under a numbered identifier", funcKey(fn), n), Pos: c.pos(as.Pos()), Verdict: OK, Detail: "key comes from " + numName}
 				// each definition of the key variable that can reach this store
 				if id, ok := unparen(ix.Index).(*ast.Ident); ok {
 					// the key variable may be defined once per case clause: judge the definition in the same clause / block
@@ -668,17 +766,19 @@ func ruleNUMPARSE(c *Ctx) []Obligation {
 					})
 					var ok2 bool
 					var why string
-					if def != nil {
+					if numberingOf[fn] == obj && numberingAt[fn] < ix.Pos() {
+						ok2 = true
+					} else if def != nil {
 						ok2, why = numbered(fd, fn, def, 0)
 					} else {
 						ok2, why = numbered(fd, fn, id, 0)
 					}
 					if !ok2 {
 						o.Verdict = VIOL
-						o.Detail = fmt.Sprintf("the identifier under which the entity is indexed is %s, which has not passed through %s: an unnamed entity of this kind keeps the ID 0 it was read with (or the textual one) and does not advance the counter, so every later unnamed global, alias, ifunc or function gets a number one too low and valid input is rejected as a duplicate", why, numbering.Name())
+						o.Detail = fmt.Sprintf("the identifier under which the entity is indexed is %s, which has not passed through %s: an unnamed entity of this kind keeps the ID 0 it was read with (or the textual one) and does not advance the counter, so every later unnamed global, alias, ifunc or function gets a number one too low and valid input is rejected as a duplicate", why, numName)
 					}
 				} else if ok2, why := numbered(fd, fn, ix.Index, 0); !ok2 {
-					o.Verdict, o.Detail = VIOL, "key "+why+" does not come from "+numbering.Name()
+					o.Verdict, o.Detail = VIOL, "key "+why+" does not come from "+numName
 				}
 				obs = append(obs, o)
 			}
@@ -885,109 +985,111 @@ func ruleNUMVALID(c *Ctx) []Obligation {
 			continue
 		}
 		done[sc.fd] = true
-		space := c.idSpaceOfStore(info, sc.fn, sc.recv)
-		if space != "local" && space != "global" {
+		spaces := c.idSpaceOfStore(info, sc.fn, sc.recv)
+		if strings.Trim(strings.ReplaceAll(strings.ReplaceAll(spaces, "local", ""), "global", ""), "+") != "" {
 			continue
 		}
-		curS := strings.ReplaceAll(exprString(sc.recv), " ", "") + ".ID()"
-		posS := strings.ReplaceAll(exprString(sc.arg), " ", "")
-		// locals that hold the current ID (cur := n.ID()) read like the call itself
-		curLocals := map[string]bool{}
-		ast.Inspect(sc.fd.Body, func(nd ast.Node) bool {
-			if as, ok := nd.(*ast.AssignStmt); ok && len(as.Lhs) == 1 && len(as.Rhs) == 1 {
-				if strings.ReplaceAll(exprString(as.Rhs[0]), " ", "") == curS {
-					if id, ok := as.Lhs[0].(*ast.Ident); ok {
-						curLocals[id.Name] = true
-					}
-				}
-			}
-			return true
-		})
-		o := Obligation{Key: "numbering of " + space + " IDs rejects exactly the explicit IDs that differ from the position", Pos: c.pos(sc.fd.Pos()), Verdict: UNDECIDED, Detail: "no failing branch on the current ID found"}
-		ast.Inspect(sc.fd.Body, func(nd ast.Node) bool {
-			is, ok := nd.(*ast.IfStmt)
-			if !ok || !(returnsError(info, is.Body.List) || endsInPanic(is.Body.List)) {
-				return true
-			}
-			cond := strings.ReplaceAll(exprString(is.Cond), " ", "")
-			mentionsCur := strings.Contains(cond, curS)
-			for l := range curLocals {
-				if regexp.MustCompile(`\b` + regexp.QuoteMeta(l) + `\b`).MatchString(cond) {
-					mentionsCur = true
-				}
-			}
-			if !mentionsCur {
-				return true
-			}
-			// evaluate over (cur, pos) ∈ {0..3}²; other leaves make the condition undecidable here
-			var eval func(e ast.Expr, cur, pos int64) (constant.Value, bool)
-			eval = func(e ast.Expr, cur, pos int64) (constant.Value, bool) {
-				e = unparen(e)
-				if tv := info.Types[e]; tv.Value != nil {
-					return tv.Value, true
-				}
-				switch es := strings.ReplaceAll(exprString(e), " ", ""); {
-				case es == curS || curLocals[es]:
-					return constant.MakeInt64(cur), true
-				case es == posS:
-					return constant.MakeInt64(pos), true
-				}
-				switch x := e.(type) {
-				case *ast.UnaryExpr:
-					if v, ok := eval(x.X, cur, pos); ok && x.Op == token.NOT && v.Kind() == constant.Bool {
-						return constant.MakeBool(!constant.BoolVal(v)), true
-					}
-				case *ast.BinaryExpr:
-					a, ok1 := eval(x.X, cur, pos)
-					b, ok2 := eval(x.Y, cur, pos)
-					if !ok1 || !ok2 {
-						return nil, false
-					}
-					switch x.Op {
-					case token.LAND:
-						return constant.MakeBool(constant.BoolVal(a) && constant.BoolVal(b)), a.Kind() == constant.Bool && b.Kind() == constant.Bool
-					case token.LOR:
-						return constant.MakeBool(constant.BoolVal(a) || constant.BoolVal(b)), a.Kind() == constant.Bool && b.Kind() == constant.Bool
-					case token.EQL, token.NEQ, token.LSS, token.LEQ, token.GTR, token.GEQ:
-						if a.Kind() == constant.Int && b.Kind() == constant.Int {
-							return constant.MakeBool(constant.Compare(a, x.Op, b)), true
+		for _, space := range strings.Split(spaces, "+") {
+			curS := strings.ReplaceAll(exprString(sc.recv), " ", "") + ".ID()"
+			posS := strings.ReplaceAll(exprString(sc.arg), " ", "")
+			// locals that hold the current ID (cur := n.ID()) read like the call itself
+			curLocals := map[string]bool{}
+			ast.Inspect(sc.fd.Body, func(nd ast.Node) bool {
+				if as, ok := nd.(*ast.AssignStmt); ok && len(as.Lhs) == 1 && len(as.Rhs) == 1 {
+					if strings.ReplaceAll(exprString(as.Rhs[0]), " ", "") == curS {
+						if id, ok := as.Lhs[0].(*ast.Ident); ok {
+							curLocals[id.Name] = true
 						}
 					}
-				case *ast.CallExpr: // conversions int64(x)
-					if tv, ok := info.Types[x.Fun]; ok && tv.IsType() && len(x.Args) == 1 {
-						return eval(x.Args[0], cur, pos)
+				}
+				return true
+			})
+			o := Obligation{Key: "numbering of " + space + " IDs rejects exactly the explicit IDs that differ from the position", Pos: c.pos(sc.fd.Pos()), Verdict: UNDECIDED, Detail: "no failing branch on the current ID found"}
+			ast.Inspect(sc.fd.Body, func(nd ast.Node) bool {
+				is, ok := nd.(*ast.IfStmt)
+				if !ok || !(returnsError(info, is.Body.List) || endsInPanic(is.Body.List)) {
+					return true
+				}
+				cond := strings.ReplaceAll(exprString(is.Cond), " ", "")
+				mentionsCur := strings.Contains(cond, curS)
+				for l := range curLocals {
+					if regexp.MustCompile(`\b` + regexp.QuoteMeta(l) + `\b`).MatchString(cond) {
+						mentionsCur = true
 					}
 				}
-				return nil, false
-			}
-			var wrong []string
-			decidable := true
-			for cur := int64(0); cur < 4 && decidable; cur++ {
-				for pos := int64(0); pos < 4; pos++ {
-					v, ok := eval(is.Cond, cur, pos)
-					if !ok || v.Kind() != constant.Bool {
-						decidable = false
-						break
+				if !mentionsCur {
+					return true
+				}
+				// evaluate over (cur, pos) ∈ {0..3}²; other leaves make the condition undecidable here
+				var eval func(e ast.Expr, cur, pos int64) (constant.Value, bool)
+				eval = func(e ast.Expr, cur, pos int64) (constant.Value, bool) {
+					e = unparen(e)
+					if tv := info.Types[e]; tv.Value != nil {
+						return tv.Value, true
 					}
-					want := cur != 0 && cur != pos
-					if constant.BoolVal(v) != want {
-						wrong = append(wrong, fmt.Sprintf("(current %d, position %d): fails=%v, want %v", cur, pos, constant.BoolVal(v), want))
+					switch es := strings.ReplaceAll(exprString(e), " ", ""); {
+					case es == curS || curLocals[es]:
+						return constant.MakeInt64(cur), true
+					case es == posS:
+						return constant.MakeInt64(pos), true
+					}
+					switch x := e.(type) {
+					case *ast.UnaryExpr:
+						if v, ok := eval(x.X, cur, pos); ok && x.Op == token.NOT && v.Kind() == constant.Bool {
+							return constant.MakeBool(!constant.BoolVal(v)), true
+						}
+					case *ast.BinaryExpr:
+						a, ok1 := eval(x.X, cur, pos)
+						b, ok2 := eval(x.Y, cur, pos)
+						if !ok1 || !ok2 {
+							return nil, false
+						}
+						switch x.Op {
+						case token.LAND:
+							return constant.MakeBool(constant.BoolVal(a) && constant.BoolVal(b)), a.Kind() == constant.Bool && b.Kind() == constant.Bool
+						case token.LOR:
+							return constant.MakeBool(constant.BoolVal(a) || constant.BoolVal(b)), a.Kind() == constant.Bool && b.Kind() == constant.Bool
+						case token.EQL, token.NEQ, token.LSS, token.LEQ, token.GTR, token.GEQ:
+							if a.Kind() == constant.Int && b.Kind() == constant.Int {
+								return constant.MakeBool(constant.Compare(a, x.Op, b)), true
+							}
+						}
+					case *ast.CallExpr: // conversions int64(x)
+						if tv, ok := info.Types[x.Fun]; ok && tv.IsType() && len(x.Args) == 1 {
+							return eval(x.Args[0], cur, pos)
+						}
+					}
+					return nil, false
+				}
+				var wrong []string
+				decidable := true
+				for cur := int64(0); cur < 4 && decidable; cur++ {
+					for pos := int64(0); pos < 4; pos++ {
+						v, ok := eval(is.Cond, cur, pos)
+						if !ok || v.Kind() != constant.Bool {
+							decidable = false
+							break
+						}
+						want := cur != 0 && cur != pos
+						if constant.BoolVal(v) != want {
+							wrong = append(wrong, fmt.Sprintf("(current %d, position %d): fails=%v, want %v", cur, pos, constant.BoolVal(v), want))
+						}
 					}
 				}
-			}
-			o.Pos = c.pos(is.Pos())
-			switch {
-			case !decidable:
-				o.Verdict, o.Detail = OK, "the failing condition `"+exprString(is.Cond)+"` involves state other than the current ID and the position: not decided by this rule"
-			case len(wrong) > 0:
-				o.Verdict = VIOL
-				o.Detail = fmt.Sprintf("the failing condition `%s` is not `current != 0 && current != position` — %s: the parser has no other check of explicit IDs, so a duplicate or out-of-order %%N / @N is renumbered silently (or a valid one rejected)", exprString(is.Cond), strings.Join(wrong[:min(3, len(wrong))], "; "))
-			default:
-				o.Verdict, o.Detail = OK, "`"+exprString(is.Cond)+"` ≡ current != 0 && current != position on {0..3}²"
-			}
-			return false
-		})
-		obs = append(obs, o)
+				o.Pos = c.pos(is.Pos())
+				switch {
+				case !decidable:
+					o.Verdict, o.Detail = OK, "the failing condition `"+exprString(is.Cond)+"` involves state other than the current ID and the position: not decided by this rule"
+				case len(wrong) > 0:
+					o.Verdict = VIOL
+					o.Detail = fmt.Sprintf("the failing condition `%s` is not `current != 0 && current != position` — %s: the parser has no other check of explicit IDs, so a duplicate or out-of-order %%N / @N is renumbered silently (or a valid one rejected)", exprString(is.Cond), strings.Join(wrong[:min(3, len(wrong))], "; "))
+				default:
+					o.Verdict, o.Detail = OK, "`"+exprString(is.Cond)+"` ≡ current != 0 && current != position on {0..3}²"
+				}
+				return false
+			})
+			obs = append(obs, o)
+		}
 	}
 	return obs
 }
